@@ -18,6 +18,8 @@ the executable Spec that judges the real providers to the model.
 import Pandora.Proofs.C14Spec
 import Pandora.Proofs.C14Hdr
 import Pandora.Bridge.C14
+import Pandora.Bridge.C14Mid
+import Pandora.Proofs.C14Mid
 import Pandora.Model.C14Fin
 
 namespace Pandora.Props.C14
@@ -879,5 +881,102 @@ example :
     (match Gen.ChosenCases.runFullScanStep 5 false 1 0 (.ammo 3) false with | .tau 1 => true | _ => false) = true ∧
     (match Gen.ChosenCases.runPreloadedStep 0 0 3 false 7 0 with | .offer 1 (8, _) => true | _ => false) = true ∧
     (match Gen.ChosenCases.runPreloadedStep 2 0 3 false 6 0 with | .ret .errPasses => true | _ => false) = true := by decide
+
+/-! ## round 6: a cancellation that lands while the decoder is inside `Scan` (Model/C14Mid.lean)
+
+`plan.j` = the Scan call of the run during which the context is cancelled (any), `plan.notices` / `plan.sendWins` = how
+the two races it opens are decided (any).  The decoders' way of handing on a cancelled context (`Bridge.C14.ctxRetOf`)
+and loadAmmo's normalisation are the REGENERATED ones. -/
+
+/-- **However the cancellation lands, both modes end in a way core/engine recognises.**  For every format, file,
+chosen-predicate, limit, passes, every Scan call in which the cancel lands and every outcome of the races: a run that
+ends, ends with an error that is nil, a sentinel class, or the context's OWN error (errutil.IsCtxError holds — a stopped
+run, not a failed provider) — with preload off and on alike; the preloaded provider has delivered nothing. -/
+theorem C14_midscan_recognised (k : Fmt) (preload : Bool) (file : List α) (chosen : α → Bool) (b : Bounds)
+    (plan : MidPlan) (fuel : Nat) (o : List α) (e : MidEnd)
+    (h : runMid k preload file chosen b (Bridge.C14.ctxRetOf k) true plan fuel = some (o, e)) :
+    e.recognised = true ∧ (preload = true → o = []) := by
+  rw [Bridge.C14.scan_ctx_source.2 k] at h
+  cases preload
+  · refine ⟨?_, by simp⟩
+    cases k <;> exact fullScanMid_recognised _ _ _ _ _ _ _ _ _ _ _ _ _ _ h
+  · have := by
+      cases k <;> exact preloadMid_recognised _ _ _ _ _ _ _ _ _ _ h
+    exact ⟨this.2, fun _ => this.1⟩
+
+/-- **The cancel lands in the first read of the file** (what the harness drives, `rc=1`): something is chosen; the
+streaming provider delivers nothing or — the first entry being chosen and the send winning the race — that entry,
+the preloaded provider nothing; BOTH end with the context's own error. -/
+theorem C14_midscan_first (k : Fmt) (a : α) (rest : List α) (chosen : α → Bool) (b : Bounds) (notices sendWins : Bool)
+    (fuel : Nat) (hfuel : rest.length + 2 ≤ fuel) (hf : 0 < ((a :: rest).filter chosen).length) :
+    ∃ os, runMid k false (a :: rest) chosen b (Bridge.C14.ctxRetOf k) true ⟨0, notices, sendWins⟩ (fuel + 1)
+            = some (os, ⟨.canceled, true⟩) ∧
+          runMid k true (a :: rest) chosen b (Bridge.C14.ctxRetOf k) true ⟨0, notices, sendWins⟩ (fuel + 1)
+            = some ([], ⟨.canceled, true⟩) ∧
+          (os = [] ∨ (os = [a] ∧ chosen a = true)) := by
+  rw [Bridge.C14.scan_ctx_source.2 k, runMid_stream_first]
+  have hp : runMid k true (a :: rest) chosen b .bare true ⟨0, notices, sendWins⟩ (fuel + 1) = some ([], ⟨.canceled, true⟩) := by
+    cases hk : scanChecksCtx k
+    · rw [runMid_preload_first_json k hk a rest chosen b .bare true notices sendWins fuel hfuel]
+      have : ¬ ((a :: rest).filter chosen).length = 0 := by omega
+      simp only [this, if_false]
+    · rw [runMid_preload_first_checks k hk]; rfl
+  by_cases h1 : (scanChecksCtx k && notices) = true
+  · exact ⟨[], by simp [h1, scanCtxEnd], hp, Or.inl rfl⟩
+  · by_cases h2 : (chosen a && sendWins) = true
+    · refine ⟨[a], by simp [h1, h2, ownCtxEnd], hp, Or.inr ⟨rfl, ?_⟩⟩
+      simp at h2; exact h2.1
+    · exact ⟨[], by simp [h1, h2, ownCtxEnd], hp, Or.inl rfl⟩
+
+/-- the same claim for a decoder that hands the cancelled context on WRAPPED with `%w` (seeded change C14-r5-1) -/
+def C14_midscan_wrapped_statement : Prop :=
+  ∀ (k : Fmt) (a : Nat) (rest : List Nat) (chosen : Nat → Bool) (b : Bounds) (notices sendWins : Bool),
+    0 < ((a :: rest).filter chosen).length →
+    (runMid k false (a :: rest) chosen b .wrapped true ⟨0, notices, sendWins⟩ (rest.length + 3)).map (·.2) =
+    (runMid k true (a :: rest) chosen b .wrapped true ⟨0, notices, sendWins⟩ (rest.length + 3)).map (·.2)
+
+/-- … is false: a uripost file that starts with a header line (the Scan call goes round its loop once more and notices
+the cancel): streaming ends with an error the engine does not recognise, preload with the context's own -/
+theorem C14_midscan_wrapped_counterexample : ¬ C14_midscan_wrapped_statement := by
+  intro h
+  have := h .uripost 0 [] (fun _ => true) ⟨0, 0⟩ true false (by decide)
+  revert this; decide
+
+/-- what is true of the wrapped variant: as long as the Scan call does not go round its loop again both modes still
+end alike -/
+theorem C14_midscan_wrapped_partial (k : Fmt) (a : Nat) (rest : List Nat) (chosen : Nat → Bool) (b : Bounds) (sendWins : Bool)
+    (hf : 0 < ((a :: rest).filter chosen).length) :
+    (runMid k false (a :: rest) chosen b .wrapped true ⟨0, false, sendWins⟩ (rest.length + 3)).map (·.2) =
+    (runMid k true (a :: rest) chosen b .wrapped true ⟨0, false, sendWins⟩ (rest.length + 3)).map (·.2) := by
+  rw [runMid_stream_first]
+  have hp : runMid k true (a :: rest) chosen b .wrapped true ⟨0, false, sendWins⟩ (rest.length + 2 + 1) = some ([], ⟨.canceled, true⟩) := by
+    cases hk : scanChecksCtx k
+    · rw [runMid_preload_first_json k hk a rest chosen b .wrapped true false sendWins _ (Nat.le_refl _)]
+      have : ¬ ((a :: rest).filter chosen).length = 0 := by omega
+      simp only [this, if_false]
+    · rw [runMid_preload_first_checks k hk]; rfl
+  rw [hp]
+  by_cases h2 : (chosen a && sendWins) = true <;> simp [h2, ownCtxEnd]
+
+/-- the regenerated facts the three theorems above rest on -/
+theorem C14_midscan_is_source :
+    ((Gen.C14Hdr.uriScanChecksCtx = scanChecksCtx .uri ∧ Gen.C14Hdr.uripostScanChecksCtx = scanChecksCtx .uripost ∧
+      Gen.C14Hdr.rawScanChecksCtx = scanChecksCtx .raw ∧ Gen.C14Hdr.jsonScanChecksCtx = scanChecksCtx .jsonLines ∧
+      Gen.C14Hdr.jsonScanChecksCtx = scanChecksCtx .jsonArray) ∧
+     (∀ k, Bridge.C14.ctxRetOf k = .bare)) ∧
+    ((∀ eb, Gen.ChosenCases.loadAmmoFailBare true .canceled eb = some true) ∧
+     (∀ c e eb, Gen.ChosenCases.loadAmmoFailBare c e eb = none ↔ Gen.ChosenCases.loadAmmoFail c e = none)) :=
+  ⟨Bridge.C14.scan_ctx_source, Bridge.C14.loadFail_bare_source⟩
+
+-- non-vacuity: a run of three entries, two chosen, cancel inside the SECOND Scan call, noticed there
+example : runMid .uripost false [1, 2, 3] (fun x => x != 2) ⟨0, 2⟩ (Bridge.C14.ctxRetOf .uripost) true ⟨1, true, false⟩ 9
+    = some ([1], ⟨.canceled, true⟩) := by decide
+example : runMid .uripost true [1, 2, 3] (fun x => x != 2) ⟨0, 2⟩ (Bridge.C14.ctxRetOf .uripost) true ⟨1, true, false⟩ 9
+    = some ([], ⟨.canceled, true⟩) := by decide
+-- the hypotheses of C14_midscan_first, and its two streaming outcomes
+example : (2 : Nat) + 2 ≤ 4 ∧ 0 < (([1, 2, 3] : List Nat).filter (fun x => x != 2)).length := by decide
+example : runMid .jsonArray false [1, 2, 3] (fun x => x != 2) ⟨0, 0⟩ .bare true ⟨0, false, true⟩ 5 = some ([1], ⟨.canceled, true⟩) ∧
+    runMid .jsonArray false [1, 2, 3] (fun x => x != 2) ⟨0, 0⟩ .bare true ⟨0, false, false⟩ 5 = some ([], ⟨.canceled, true⟩) ∧
+    runMid .jsonArray true [1, 2, 3] (fun x => x != 2) ⟨0, 0⟩ .bare true ⟨0, false, true⟩ 5 = some ([], ⟨.canceled, true⟩) := by decide
 
 end Pandora.Props.C14
